@@ -11,15 +11,23 @@ import (
 	"context"
 	"errors"
 	"fmt"
+	"github.com/anishathalye/porcupine"
+	"github.com/bufbuild/buf/private/bufpkg/bufmodule/bufmodulestore"
+	"github.com/bufbuild/buf/private/pkg/filelock"
+	"github.com/bufbuild/verif/modgen"
 	"io"
 	"os"
 	"path/filepath"
 	"sort"
 	"strings"
+	"sync"
+	"sync/atomic"
+	"time"
 
 	"github.com/bufbuild/buf/private/bufpkg/bufcas"
 	"github.com/bufbuild/buf/private/bufpkg/bufconfig"
 	"github.com/bufbuild/buf/private/bufpkg/bufprotoplugin"
+	"github.com/bufbuild/buf/private/pkg/osext"
 	"github.com/bufbuild/buf/private/pkg/slogext"
 	"github.com/bufbuild/buf/private/pkg/storage"
 	"github.com/bufbuild/buf/private/pkg/storage/storagearchive"
@@ -75,7 +83,7 @@ func under(prefix, key string) bool {
 
 type base struct {
 	name    string
-	kind    string // mem | os | ossym
+	kind    string          // mem | os | ossym
 	links   map[string]bool // planted symbolic links (kind os only): never objects
 	bucket  storage.ReadWriteBucket
 	dir     string // os root
@@ -133,10 +141,10 @@ func newContents() *contents {
 
 type baseView struct{ b *base }
 
-func (v baseView) label() string              { return v.b.name + "(" + v.b.kind + ")" }
-func (v baseView) rb() storage.ReadBucket     { return v.b.bucket }
-func (v baseView) wb() storage.WriteBucket    { return v.b.bucket }
-func (v baseView) roots() []*base             { return []*base{v.b} }
+func (v baseView) label() string                   { return v.b.name + "(" + v.b.kind + ")" }
+func (v baseView) rb() storage.ReadBucket          { return v.b.bucket }
+func (v baseView) wb() storage.WriteBucket         { return v.b.bucket }
+func (v baseView) roots() []*base                  { return []*base{v.b} }
 func (v baseView) target(n string) (*base, string) { return v.b, n }
 func (v baseView) sources(n string) []loc          { return []loc{{v.b, n}} }
 func (v baseView) contents() *contents {
@@ -208,12 +216,12 @@ type filterView struct {
 	r     storage.ReadBucket
 }
 
-func (v *filterView) label() string                  { return "filter[" + v.desc + "](" + v.inner.label() + ")" }
-func (v *filterView) rb() storage.ReadBucket         { return v.r }
-func (v *filterView) wb() storage.WriteBucket        { return nil }
-func (v *filterView) roots() []*base                 { return v.inner.roots() }
-func (v *filterView) target(string) (*base, string)  { return nil, "" }
-func (v *filterView) sources(n string) []loc         { return v.inner.sources(n) }
+func (v *filterView) label() string                 { return "filter[" + v.desc + "](" + v.inner.label() + ")" }
+func (v *filterView) rb() storage.ReadBucket        { return v.r }
+func (v *filterView) wb() storage.WriteBucket       { return nil }
+func (v *filterView) roots() []*base                { return v.inner.roots() }
+func (v *filterView) target(string) (*base, string) { return nil, "" }
+func (v *filterView) sources(n string) []loc        { return v.inner.sources(n) }
 func (v *filterView) contents() *contents {
 	in := v.inner.contents()
 	out := newContents()
@@ -244,7 +252,7 @@ func (v *stripView) wb() storage.WriteBucket       { return nil }
 func (v *stripView) roots() []*base                { return v.inner.roots() }
 func (v *stripView) target(string) (*base, string) { return nil, "" }
 func (v *stripView) sources(n string) []loc        { return v.inner.sources(n) }
-func (v *stripView) contents() *contents                  { return v.inner.contents() }
+func (v *stripView) contents() *contents           { return v.inner.contents() }
 
 type multiView struct {
 	members []view
@@ -346,20 +354,20 @@ type getHandle struct {
 // ---- the run ----
 
 type sim struct {
-	tp      *tape.Tape
-	s       *sched.Sim
-	env     *engine.Env
-	bases   []*base
-	views   []view
-	puts    []*putHandle
-	gets    []*getHandle
-	root    string // scratch/run
-	sentinel map[string]string
-	prop    string
-	ctx     context.Context
-	counters map[string]int
+	tp          *tape.Tape
+	s           *sched.Sim
+	env         *engine.Env
+	bases       []*base
+	views       []view
+	puts        []*putHandle
+	gets        []*getHandle
+	root        string // scratch/run
+	sentinel    map[string]string
+	prop        string
+	ctx         context.Context
+	counters    map[string]int
 	hostileSeen map[string]struct{}
-	opKinds  map[string]struct{}
+	opKinds     map[string]struct{}
 }
 
 // siblings whose names extend a directory's name with a character that sorts below '/'
@@ -1442,6 +1450,341 @@ func (m *sim) stepFileNodes() {
 	m.s.Probe("filenode-paths")
 }
 
+// ---- concurrent callers: linearizability against a map of registers ----
+
+type linIn struct {
+	op   string // put | get | delete
+	path string
+	val  string
+}
+
+type linOut struct {
+	val    string
+	absent bool
+}
+
+var linModel = porcupine.Model{
+	Partition: func(history []porcupine.Operation) [][]porcupine.Operation {
+		byPath := map[string][]porcupine.Operation{}
+		var paths []string
+		for _, op := range history {
+			p := op.Input.(linIn).path
+			if _, ok := byPath[p]; !ok {
+				paths = append(paths, p)
+			}
+			byPath[p] = append(byPath[p], op)
+		}
+		sort.Strings(paths)
+		var out [][]porcupine.Operation
+		for _, p := range paths {
+			out = append(out, byPath[p])
+		}
+		return out
+	},
+	Init: func() interface{} { return "\x00absent" },
+	Step: func(state, input, output interface{}) (bool, interface{}) {
+		st, in, out := state.(string), input.(linIn), output.(linOut)
+		switch in.op {
+		case "put":
+			return true, in.val
+		case "delete":
+			if st == "\x00absent" {
+				return out.absent, st
+			}
+			return !out.absent, "\x00absent"
+		default: // get
+			if st == "\x00absent" {
+				return out.absent, st
+			}
+			return !out.absent && out.val == st, st
+		}
+	},
+	Equal: func(a, b interface{}) bool { return a == b },
+}
+
+// stepConcurrent lets three goroutines put, get and delete on two paths of one fresh bucket at
+// the same time, running freely (no scheduling points, nothing drawn while they run; GOMAXPROCS is
+// 1, 4 or 16 depending on the worker), records invocation and return of every operation with a
+// global sequence number and checks the history against a map of registers: every put is one
+// complete value that becomes visible at one instant, every get returns one of them in full.
+func (m *sim) stepConcurrent() {
+	kind := tape.Pick(m.tp, "linkind", []string{"mem", "os", "os-bucket-per-client"})
+	var bucket storage.ReadWriteBucket
+	perClient := map[int]storage.ReadWriteBucket{}
+	if kind == "mem" {
+		bucket = storagemem.NewReadWriteBucket()
+	} else {
+		dir := filepath.Join(m.root, fmt.Sprintf("lin%d", m.counters["lin"]))
+		if err := os.MkdirAll(dir, 0o755); err != nil {
+			panic(err)
+		}
+		defer os.RemoveAll(dir)
+		b, err := storageos.NewProvider().NewReadWriteBucket(dir)
+		if err != nil {
+			panic(err)
+		}
+		bucket = b
+		if kind == "os-bucket-per-client" {
+			// every client opens the directory itself, as separate processes sharing a cache do
+			for c := 0; c < 3; c++ {
+				cb, err := storageos.NewProvider().NewReadWriteBucket(dir)
+				if err != nil {
+					panic(err)
+				}
+				perClient[c] = cb
+			}
+		}
+	}
+	m.counters["lin"]++
+	paths := []string{"k/one.txt", "k/two.txt"}
+	// objects nobody touches while the clients run, sorted before, between and after the contended
+	// paths: every walk must visit each of them exactly once
+	stable := []string{"k/a-stable.txt", "k/p-stable.txt", "k/z-stable.txt"}
+	for _, p := range stable {
+		if err := storage.PutPath(context.Background(), bucket, p, []byte("stable "+p)); err != nil {
+			panic(err)
+		}
+	}
+	const clients, opsPerClient = 3, 7
+	// the script is drawn before anything runs
+	script := make([][]linIn, clients)
+	for c := 0; c < clients; c++ {
+		for k := 0; k < opsPerClient; k++ {
+			in := linIn{op: tape.Pick(m.tp, "linop", []string{"put", "get", "get", "delete", "put"}), path: paths[m.tp.Draw("linpath", len(paths))]}
+			if in.op == "put" {
+				// unique values of very different sizes: a reader that sees a mixture is attributable
+				in.val = fmt.Sprintf("c%d-%d:", c, k) + strings.Repeat(string(rune('a'+c)), 1+m.tp.Draw("linsize", 3)*20000)
+			}
+			script[c] = append(script[c], in)
+		}
+	}
+	var seq atomic.Int64
+	results := make([][]porcupine.Operation, clients)
+	errs := make([][]string, clients)
+	var wg sync.WaitGroup
+	for c := 0; c < clients; c++ {
+		wg.Add(1)
+		go func(c int) {
+			defer wg.Done()
+			defer func() {
+				if r := recover(); r != nil {
+					errs[c] = append(errs[c], fmt.Sprintf("panic: %v", r))
+				}
+			}()
+			ctx := context.Background()
+			bucket := bucket
+			if cb := perClient[c]; cb != nil {
+				bucket = cb
+			}
+			for _, in := range script[c] {
+				call := seq.Add(1)
+				var out linOut
+				switch in.op {
+				case "put":
+					// (the disk bucket replaces objects atomically only when asked to)
+					if err := storage.PutPath(ctx, bucket, in.path, []byte(in.val), storage.PutWithAtomic()); err != nil {
+						errs[c] = append(errs[c], fmt.Sprintf("put %s: %v", in.path, err))
+						continue
+					}
+				case "delete":
+					err := bucket.Delete(ctx, in.path)
+					switch {
+					case err == nil:
+					case storage.IsNotExist(err):
+						out.absent = true
+					default:
+						errs[c] = append(errs[c], fmt.Sprintf("delete %s: %v", in.path, err))
+						continue
+					}
+				default:
+					data, err := storage.ReadPath(ctx, bucket, in.path)
+					switch {
+					case err == nil:
+						out.val = string(data)
+					case storage.IsNotExist(err):
+						out.absent = true
+					default:
+						errs[c] = append(errs[c], fmt.Sprintf("get %s: %v", in.path, err))
+						continue
+					}
+				}
+				ret := seq.Add(1)
+				results[c] = append(results[c], porcupine.Operation{ClientId: c, Input: in, Call: call, Output: out, Return: ret})
+			}
+		}(c)
+	}
+	// a fourth goroutine walks the directory all the time: whatever the others do, a walk visits
+	// each path at most once, only paths that can exist, and does not fail
+	var walkProblems []string
+	stop := make(chan struct{})
+	walkerDone := make(chan struct{})
+	go func() {
+		defer close(walkerDone)
+		for n := 0; n < 200; n++ {
+			select {
+			case <-stop:
+				return
+			default:
+			}
+			seen := map[string]int{}
+			err := bucket.Walk(context.Background(), "k", func(info storage.ObjectInfo) error {
+				seen[info.Path()]++
+				return nil
+			})
+			if err != nil {
+				walkProblems = append(walkProblems, fmt.Sprintf("walk failed: %v", err))
+				return
+			}
+			for p, k := range seen {
+				if k > 1 {
+					walkProblems = append(walkProblems, fmt.Sprintf("walk visited %s %d times", p, k))
+				}
+				// (the temporary file of an atomic put in flight sits next to its target and is
+				// listed by a concurrent walk of the directory: not an object anybody put, and not
+				// what the property speaks about - see DESIGN §8)
+				if p != paths[0] && p != paths[1] && !simfs.IsTemp(p) && !strings.HasSuffix(p, "-stable.txt") {
+					walkProblems = append(walkProblems, fmt.Sprintf("walk visited %q, which nobody ever put", p))
+				}
+			}
+			for _, p := range stable {
+				// (memory bucket only: a walk of a DISK directory in which another goroutine renames
+				// temporary files into place can end early without error - storageos turns the
+				// not-exist error of the vanished entry into "nothing to walk" - an observation about
+				// the unchanged code outside the listed properties, see DESIGN §8)
+				if seen[p] == 0 && kind == "mem" {
+					walkProblems = append(walkProblems, fmt.Sprintf("walk did not visit %s, which existed before and was never touched", p))
+				}
+			}
+			if len(walkProblems) > 0 {
+				return
+			}
+		}
+	}()
+	wg.Wait()
+	close(stop)
+	<-walkerDone
+	sort.Strings(walkProblems)
+	for i, wp := range walkProblems {
+		if i == 0 || wp != walkProblems[i-1] {
+			m.violate("walk-each-once", "concurrent|"+kind, "walking a %s bucket while three goroutines put, get and delete: %s", kind, wp)
+		}
+	}
+	var history []porcupine.Operation
+	for c := range results {
+		history = append(history, results[c]...)
+		for _, e := range errs[c] {
+			m.violate("get-matches-model", "concurrent|"+kind, "concurrent callers on a %s bucket: %s", kind, e)
+		}
+	}
+	switch porcupine.CheckOperationsTimeout(linModel, history, 5*time.Second) {
+	case porcupine.Illegal:
+		var lines []string
+		sort.Slice(history, func(i, j int) bool { return history[i].Call < history[j].Call })
+		for _, op := range history {
+			in, out := op.Input.(linIn), op.Output.(linOut)
+			res := fmt.Sprintf("%d bytes %.8s", len(out.val), out.val)
+			if out.absent {
+				res = "absent"
+			}
+			if in.op == "put" {
+				res = fmt.Sprintf("%d bytes %.8s", len(in.val), in.val)
+			}
+			lines = append(lines, fmt.Sprintf("[%d,%d] c%d %s %s -> %s", op.Call, op.Return, op.ClientId, in.op, in.path, res))
+		}
+		m.violate("reader-sees-object-in-full", "concurrent|"+kind, "history of %d concurrent operations on a %s bucket is not linearizable as a map of whole objects:\n%s", len(history), kind, strings.Join(lines, "\n"))
+	case porcupine.Ok:
+		m.s.Probe("concurrent-history-linearizable")
+	default:
+		m.s.Probe("concurrent-history-inconclusive")
+	}
+}
+
+// stepCachedModule: a cached module's marker file names the directory that holds its files. That
+// name comes from the disk, not from buf: a marker whose files_dir leaves the module's own directory
+// (pointing at a perfectly valid copy of the files elsewhere in the cache, so that no digest check can
+// object) must not make the store read from there.
+func (m *sim) stepCachedModule() {
+	ctx := context.Background()
+	u, err := modgen.New(m.tp, modgen.Options{MaxModules: 1, MaxFiles: 3})
+	if err != nil {
+		panic(err)
+	}
+	keys := u.Keys([]int{0})
+	datas, err := u.Provider.GetModuleDatasForModuleKeys(ctx, keys)
+	if err != nil {
+		panic(err)
+	}
+	var bucket storage.ReadWriteBucket = storagemem.NewReadWriteBucket()
+	if m.tp.Draw("cmkind", 2) == 1 {
+		dir := filepath.Join(m.root, fmt.Sprintf("cachedmod%d", m.counters["cm"]))
+		if err := os.MkdirAll(dir, 0o755); err != nil {
+			panic(err)
+		}
+		defer os.RemoveAll(dir)
+		b, err := storageos.NewProvider().NewReadWriteBucket(dir)
+		if err != nil {
+			panic(err)
+		}
+		bucket = b
+	}
+	m.counters["cm"]++
+	store := bufmodulestore.NewModuleDataStore(slogext.NopLogger, bucket, filelock.NewNopLocker())
+	if err := store.PutModuleDatas(ctx, datas); err != nil {
+		m.violate("put-matches-model", "cached-module", "storing a module in a fresh cache failed: %v", err)
+		return
+	}
+	state, err := simfs.Snapshot(ctx, bucket)
+	if err != nil {
+		panic(err)
+	}
+	marker := ""
+	for _, p := range simfs.SortedKeys(state) {
+		if strings.HasSuffix(p, "/module.yaml") {
+			marker = p
+		}
+	}
+	if marker == "" || !strings.Contains(state[marker], "files_dir: files") {
+		m.violate("harness-reference", "harness|cached-module-layout", "unexpected cache layout: %v", simfs.SortedKeys(state))
+		return
+	}
+	modDir := strings.TrimSuffix(marker, "/module.yaml")
+	depth := strings.Count(modDir, "/") + 1
+	// move the files out of the module's directory, to the top of the cache
+	for p, c := range state {
+		if strings.HasPrefix(p, modDir+"/files/") {
+			if err := storage.PutPath(ctx, bucket, "elsewhere/files/"+strings.TrimPrefix(p, modDir+"/files/"), []byte(c)); err != nil {
+				panic(err)
+			}
+		}
+	}
+	if err := bucket.DeleteAll(ctx, modDir+"/files"); err != nil {
+		panic(err)
+	}
+	up := strings.Repeat("../", depth)
+	filesDir := tape.Pick(m.tp, "cmspelling", []string{up + "elsewhere/files", "files/../" + up + "elsewhere/files", "./" + up + "elsewhere/./files", up + "elsewhere//files/"})
+	if err := storage.PutPath(ctx, bucket, marker, []byte(strings.Replace(state[marker], "files_dir: files", "files_dir: "+filesDir, 1))); err != nil {
+		panic(err)
+	}
+	found, _, err := store.GetModuleDatasForModuleKeys(ctx, keys)
+	served := 0
+	if err == nil && len(found) == 1 {
+		if fb, berr := found[0].Bucket(); berr == nil {
+			_ = fb.Walk(ctx, "", func(info storage.ObjectInfo) error {
+				if data, rerr := storage.ReadPath(ctx, fb, info.Path()); rerr == nil && len(data) >= 0 {
+					served++
+				}
+				return nil
+			})
+		}
+	}
+	m.s.Event("cached-module files_dir=%q found=%d served=%d err=%v", filesDir, len(found), served, err != nil)
+	m.hostileSeen["files_dir:"+filesDir] = struct{}{}
+	if served > 0 {
+		m.violate("escape-rejected", "module-yaml", "a cached module whose marker says files_dir: %s served %d file(s) from outside the module's directory %s", filesDir, served, modDir)
+	}
+	m.s.Probe("cached-module-files-dir")
+}
+
 // stepConfigDirs: directories supplied by configuration files (workspace directories, module
 // paths, exclude paths) are confined to the directory of the configuration file.
 func (m *sim) stepConfigDirs() {
@@ -1739,9 +2082,9 @@ func Run(tp *tape.Tape, env *engine.Env) *engine.Outcome {
 		panic(err)
 	}
 	if wd, err := os.Getwd(); err == nil {
-		defer func() { _ = os.Chdir(wd) }()
+		defer func() { _ = osext.Chdir(wd) }()
 	}
-	if err := os.Chdir(filepath.Join(m.root, "outer", "B")); err != nil {
+	if err := osext.Chdir(filepath.Join(m.root, "outer", "B")); err != nil {
 		panic(err)
 	}
 	thread.SetParallelism(1 + tp.Draw("par", 4))
@@ -1819,16 +2162,22 @@ func Run(tp *tape.Tape, env *engine.Env) *engine.Outcome {
 				m.stepPluginResponse(v)
 			}
 		case op == 19 && tp.Draw("special19", 4) == 3:
-			switch tp.Draw("which19", 3) {
+			switch tp.Draw("which19", 5) {
 			case 0:
 				name = "foreign-archive"
 				m.stepForeignArchive()
 			case 1:
 				name = "filenode"
 				m.stepFileNodes()
-			default:
+			case 2:
 				name = "config-dirs"
 				m.stepConfigDirs()
+			case 3:
+				name = "cached-module"
+				m.stepCachedModule()
+			default:
+				name = "concurrent"
+				m.stepConcurrent()
 			}
 		case op == 19:
 			if tp.Draw("archopts", 3) == 2 {
